@@ -3,3 +3,5 @@ import XProofs.Properties.C09
 #print axioms Properties.C09.C09_restore
 #print axioms Properties.C09.C09_coherent
 #print axioms Properties.C09.C09_restore_unit_weights
+#print axioms Properties.C09.C09_matched_means_within_current_tolerances
+#print axioms Properties.C09.C09_return_matched_within_tolerances
